@@ -497,7 +497,7 @@ class Oracle(object):
             self.prev_queue = qn
         # ---- C19 queries (pure)
         busy_true = (nocc + ning > 0) or any(self.open_holders.get(m) for m in self.open_holders)
-        if not urgent_pending:
+        if True:
             try:
                 ci = c.is_idle()
                 if bool(ci) != (not busy_true):
